@@ -22,7 +22,8 @@ from lib import Ctx, WORK, VERIF
 
 CW = os.path.join(WORK, "c17")
 DUMP = os.path.join(CW, "dump")      # private copy: other checks rewrite work/dump while our runners read it
-AVM = os.path.join(VERIF, "ocaml", "_build", "avm_tree")
+AVM_SHARED = os.path.join(VERIF, "ocaml", "_build", "avm_tree")
+AVM = os.path.join(CW, "avm_tree")    # private copy of the model runner: other checks relink the shared binary while we run
 NSH = 16
 MY_OPS = ("check_compat", "set_version")
 VALUE_ERRORS = ("PRegexMatchError", "PStringValueTooLong", "PInvalidNumber")
@@ -36,10 +37,41 @@ def build_runner():
     for attempt in range(4):
         with lib.BuildLock("ocaml-tree"):
             rc, bout, _ = lib.run([os.path.join(VERIF, "ocaml", "build_tree.sh")], timeout=1800)
-        if rc == 0 and os.path.exists(AVM):
-            break
+            if rc == 0 and os.path.exists(AVM_SHARED):
+                try:
+                    tmp = AVM + ".new"
+                    shutil.copy2(AVM_SHARED, tmp)
+                    os.chmod(tmp, 0o755)
+                    # a complete binary answers its usage message
+                    if lib.run([tmp], WORK, 60)[0] == 2:
+                        os.replace(tmp, AVM)
+                        return 0, bout
+                    bout += "\ncopied model runner does not start"
+                except OSError as ex:
+                    bout += "\ncopy of the model runner failed: %r" % ex
+                rc = 1
         time.sleep(5 + 10 * attempt)
     return rc, bout
+
+
+def private_avh(avh):
+    """a private copy of the harness binary (other checks rebuild the shared one while we run)"""
+    import time
+    if not avh:
+        return avh
+    dst = os.path.join(CW, "avh")
+    for attempt in range(4):
+        try:
+            with lib.BuildLock("cargo"):
+                shutil.copy2(avh, dst + ".new")
+            os.chmod(dst + ".new", 0o755)
+            if lib.run([dst + ".new"], WORK, 60)[0] == 2:      # usage message: the binary is complete
+                os.replace(dst + ".new", dst)
+                return dst
+        except OSError:
+            pass
+        time.sleep(3 + 5 * attempt)
+    return avh
 
 
 def split_scripts(text):
@@ -62,11 +94,14 @@ def run_sides(avh, scripts, tag):
     cmds = [[avh, "tree", "run", DUMP, p] for p in files] + [[AVM, DUMP, p] for p in files]
 
     def once(c):
-        r = lib.run(c, WORK, 1500)
-        for _ in range(2):
+        r = (1, "", 0)
+        for _ in range(3):
+            try:
+                r = lib.run(c, WORK, 1500)
+            except OSError as ex:
+                r = (1, repr(ex), 0)
             if r[0] == 0:
                 break
-            r = lib.run(c, WORK, 1500)
         return r
     with cf.ThreadPoolExecutor(max_workers=NSH) as ex:
         res = list(ex.map(once, cmds))
@@ -213,7 +248,7 @@ def run(tier, seed):
         lib.check_theorems(ctx, "Properties/C17.v", "pins/C17.json")
     ctx.log("coq done (%.0fs)" % dt)
 
-    avh = lib.harness_build(ctx)
+    avh = private_avh(lib.harness_build(ctx))
     if os.environ.get("C17_AVH_OVERRIDE"):
         # mutation self-test only (tools/c17_mutate.sh): a harness built against a mutated private COPY of /repo
         avh = os.environ["C17_AVH_OVERRIDE"]
@@ -245,9 +280,25 @@ def run(tier, seed):
             for tag, mine, ids in (("documents", mine1, ids1), ("stream", mine2, ids2)):
                 for m in mine[:5]:
                     prop_fail.append(("correspondence", dict(m, stream=tag, script_text=ids[m["script"]])))
-            nops = sum(s.count("OP2 check_compat") + s.count("OP2 set_version") for s in s_c + s_t)
+            s_all = []
+            if tier == "thorough":
+                # every table entry once (script number = entry number): one single-entry document x 21 targets + set_version
+                def gen_all(i):
+                    p = os.path.join(CW, "gen_all_%d.txt" % i)
+                    r = lib.harness_run(avh, ["compat", "gen", DUMP, str(seed), tier, p, "all", str(i), str(NSH)])
+                    return split_scripts(open(p).read()) if r[0] == 0 and os.path.exists(p) else None
+                with cf.ThreadPoolExecutor(max_workers=NSH) as ex:
+                    parts = list(ex.map(gen_all, range(NSH)))
+                ctx.oblige("generator:one document per table entry", all(p is not None for p in parts))
+                s_all = [x for p in parts if p for x in p]
+                mine3, ids3, bad3 = correspondence(ctx, avh, s_all, "entries", "one document per partial-mask table entry x 21 targets, set_version")
+                for m in mine3[:5]:
+                    prop_fail.append(("correspondence", dict(m, stream="entries", script_text=ids3[m["script"]])))
+                bad2 += bad3
+                ctx.coverage["entry_documents"] = len(s_all)
+            nops = sum(s.count("OP2 check_compat") + s.count("OP2 set_version") for s in s_c + s_t + s_all)
             ctx.coverage["evaluations"] = nops
-            ctx.coverage["traces_validated_against_impl"] = len(s_c) + len(s_t) - bad1 - bad2
+            ctx.coverage["traces_validated_against_impl"] = len(s_c) + len(s_t) + len(s_all) - bad1 - bad2
             ctx.log("correspondence done")
             # ---- direct oracle on the implementation: table sweep + the generated multi-entry documents
             src, lines = sweep(avh, seed, tier)
@@ -348,7 +399,7 @@ def replay(path):
         xmlcommon.translate_all(ctx)
         shutil.rmtree(DUMP, ignore_errors=True)
         shutil.copytree(xmlcommon.DUMP, DUMP)
-    avh = os.environ.get("C17_AVH_OVERRIDE") or lib.harness_build(ctx)
+    avh = os.environ.get("C17_AVH_OVERRIDE") or private_avh(lib.harness_build(ctx))
     rc, bout = build_runner()
     if not avh or rc != 0:
         print("build failed")
